@@ -34,7 +34,11 @@ def corner_points():
               {'ns': 'N.M', 'place': 'shadow', 'spell': 'full'},
               {'ns': 'N.M', 'place': 'shadow', 'spell': 'full', 'mc': 'p0:0'},
               {'extscope': 'split', 'nreq': 2}, {'extscope': 'split', 'nprov': 2, 'nreq': 2, 'mc': 'p1:0'},
-              {'evorder': 'reversed', 'mc': 'p0:2'}, {'evorder': 'interleaved'}]
+              {'evorder': 'reversed', 'mc': 'p0:2'}, {'evorder': 'interleaved'},
+              # the support namespace named like the encapsulee's innermost namespace (an unrooted B::Dzn:: inside A::B
+              # binds to A::B), odd identifiers, ports not grouped by direction
+              {'ns': 'N.M', 'prefix': 'M'}, {'ns': 'N.M', 'prefix': 'M', 'mc': 'p0:0'}, {'names': 'dunder', 'nreq': 2},
+              {'nprov': 2, 'nreq': 2, 'portorder': 'interleaved'}]
     out = []
     for d in deltas:
         pt = dict(M.BASE_POINT)
